@@ -1378,6 +1378,20 @@ def make_externals(world):
     def reg(key, impl):
         ext[key] = Builtin(key, impl)
 
+    def x_import_module(interp, args, kwargs, node):
+        from .interp import ExternalModule
+        return ExternalModule(args[0] if isinstance(args[0], str) else 'module')
+
+    def x_get_logger(interp, args, kwargs, node):
+        from .records import SAnyObj
+        return SAnyObj('logger')
+
+    # the pieces of sys / traceback used to format a captured error: opaque text (A-TRACEBACK)
+    reg('importlib.import_module', x_import_module)
+    reg('logging.getLogger', x_get_logger)
+    reg('sys.exc_info', lambda i, a, k, n: (None, None, None))
+    reg('traceback.extract_tb', lambda i, a, k, n: ())
+    reg('traceback.format_exception_only', lambda i, a, k, n: ['exception text'])
     reg('openpyxl.utils.get_column_letter', x_get_column_letter)
     reg('openpyxl.utils.quote_sheetname', x_quote_sheetname)
     reg('functools.partial', b_partial)
